@@ -118,6 +118,19 @@ PROPS.update({
             "not_proved": ["memory-safety of the unsafe blocks beyond index arithmetic (outside the technique); reader/merger borrowed-slice lifetimes"]},
 })
 
+PROPS.update({
+    "C11": {"prop_file": "props/C11.v", "scenarios": [{"name": "io-write"}, {"name": "io-read", "timeout": 1200}],
+            "rule": "writer: generated configurations and entries written through a sink driven by an explicit schedule (one byte per call, interruption before every call, alternating, random sizes, random interruptions), the schedule replayed by the model (delivered bytes and the exact sequence of write-call sizes); readers: cursor histories on all six codecs, mergers and sorters (chunk storage) re-run under 4 PRNG-driven schedules of short reads/partial writes/interruptions and compared with the unscheduled run; non-trivial = more write calls than inserts+10 / distinct reference results",
+            "trusted": ["std::io::Write::write_all, Read::read_exact, Read::read_to_end and io::Take follow their documented loops (modelled in IoModel.v; the write side is validated call by call against the real std loop)", "third-party decoders (snap, flate2, lz4_flex behind read_to_end after the D4 repair, zstd) handle short reads/Interrupted of the reader they wrap: exercised on all codecs, not modelled"],
+            "assumptions": ["benign schedules: every accepted transfer is >= 1 byte (a sink accepting 0 bytes is WriteZero by std's contract)"],
+            "not_proved": ["the composition 'every reader/merger/sorter result is unchanged' is reduced to C11_block_load (each block load is schedule-independent) + the cursor depending on the source only through block loads (C10_cursor_depends_on_loader_only); the open path (Metadata::read_from under a schedule) and third-party decoder internals are validated by the correspondence only"]},
+    "C12": {"prop_file": "props/C12.v", "scenarios": [{"name": "faults-c12", "timeout": 1500}],
+            "rule": "exhaustive single-fault enumeration per scenario: writer — every byte position of the output (every 7th for files > 700 B) and the flush; reader history — every seek and every read call incl. those of open; sorter — every ChunkCreator::create (io / InvalidFormatVersion / InvalidCompressionType errors), every merge-function call, chunk-storage writes (every 5th byte), flushes, reads (every 3rd), seeks (every 2nd); merger — every source read and seek; the harness records the public call in progress when the fault fired; non-trivial = distinct scenario",
+            "trusted": ["the fault-injecting components of the harness (Sched/Ctl) and catch_unwind"],
+            "assumptions": [],
+            "not_proved": ["reader side: 'the operation during which load #j happens returns the injected error and earlier operations are unaffected' (compared with the model's faulty_load on every seek/read position, not yet proved); sorter/merger chunk-I/O faults are checked against the specification only (fault fired during call i => call i returns Err(Io), never a panic or success); 'never panics' on well-formed inputs needs R"]},
+})
+
 NOT_APPLICABLE = {}
 
 MANIFEST_TEXT = {
@@ -177,5 +190,7 @@ MANIFEST_TEXT.update({
     "C07": _mt("Proved on the executable model: the sort step is a sorted permutation. The spill/merge independence is proved on the abstract model (design-notes). Every run: all three output paths of the real sorter under tiny budgets (hundreds of spills and chunk merges per case), both algorithms, rayon on/off, equal to the model and to sort-and-merge of the inserts.", "DESIGN.md §5 C07", "Axioms: none." + _PARTIAL, "Rocq proof (sort lemmas; abstract chunk-merge theorem) + implementation/model/specification differential execution"),
     "C08": _mt("Proved for unbounded insert sequences (C08_bounds, C08_volume): under 64 <= T < 2^64, capacity <= T, M >= 1 and entries <= T/4 every insert succeeds, the unspilled volume stays <= 2T (T without realloc), at most M+2 chunks are alive, every chunk comes from the creator. Every run: buffer triple and chunk count after every insert equal to the model, creator calls equal, live-chunk peak <= model.", "DESIGN.md §5 C08", "Axioms: none. Complete for the numeric model; its tie to sorter.rs is the per-insert comparison." + _PARTIAL, "Rocq proof (invariant by induction over inserts, doubling-loop termination) + per-insert state correspondence"),
     "C17": _mt("Proved (partial by nature): the buffer invariant (16-byte granularity, bounds and data regions disjoint, n <= L/16) is preserved by every insert of any size, fits/remaining never underflow, the doubling loop terminates for every usize size, allocation sizes are the rounded sizes. Every run: overflow-checked build, buffer triple compared after every insert, tracking allocator checks dealloc layouts, chunk leak counter.", "DESIGN.md §5 C17", "Axioms: none. Not expressible: aliasing/lifetime soundness of unsafe code, allocator behaviour." + _PARTIAL, "Rocq proof (arithmetic invariant) + overflow-checked differential execution + layout-tracking allocator"),
+    "C11": _mt("Proved for every benign schedule: write_all delivers exactly the buffer and counts exactly its length (C11_write_all); a whole writer run over a scheduled sink ends at the same call with the same bytes, count, emitted blocks and trailer as over a plain Vec (C11_write, by parametricity of the writer model in its sink); read_exact and read_to_end-over-Take return exactly the unscheduled bytes for any buffer sizes std offers (C11_read_exact, C11_read_to_end), hence every block load is schedule-independent (C11_block_load). Every run: writer under explicit schedules vs model (bytes and write-call sizes) and vs plain run; histories on all codecs, mergers, sorters under 4 schedules vs unscheduled.", "DESIGN.md §5 C11", "Axioms: none." + _PARTIAL, "Rocq proof (induction on fuel over schedules; relational parametricity of the writer in its sink) + scheduled-vs-plain differential execution"),
+    "C12": _mt("Proved for the writer and every fault position: no fault armed => exactly the plain run (C12_quiet); fault armed => the injected error or the plain outcome with a file not reaching the fault position (C12_writer_fault); fault position inside the file or flush fault => Err carrying the injected error, never success, never panic (C12_writer_surface). Every run: exhaustive single-fault enumeration over writer bytes/flush, reader seeks/reads, sorter creates/merge calls/chunk I/O and merger source I/O: implementation vs model (failing call index and error class) and vs the specification (the call in progress when the fault fired returns that error).", "DESIGN.md §5 C12", "Axioms: none." + _PARTIAL, "Rocq proof (relational parametricity with early failure) + exhaustive fault enumeration against model and specification"),
     "C16": _mt("Proved: open consults only the last 22 bytes whatever the file size (C16_open_reads_only_the_trailer); reset/current load nothing. Every run: block loads per operation counted by an instrumented source: implementation <= model <= 2*(levels+2).", "DESIGN.md §5 C16", "Axioms: none." + _PARTIAL, "Rocq proof (trailer locality) + per-operation I/O counting against the model and the bound"),
 })
